@@ -153,6 +153,21 @@ def c13_every_combination(ctx):
             ctx.refute('specific:every-combination-tried', tgt.site(b_), 'a listed combination that does not fit is skipped and the next one is tried',
                        'the loop over the listed combinations is left with `break`')
     ctx.ok('specific:scanned', tgt.site(lp), 'exits of the combination loop were examined', f'{n} early exit(s) without a match')
+    # the position among the written operands advances for an operand that is written, not for an `empty` one: a combination that
+    # lists an empty operand before a written one takes the written operands in order all the same
+    wparam = tgt.call_params[1].arg
+    idx_names = {unparse(x.slice) for x in ast.walk(lp) if isinstance(x, ast.Subscript) and unparse(x.value) == wparam and isinstance(x.slice, ast.Name)}
+    steps = [x for x in ast.walk(lp) if (isinstance(x, ast.AugAssign) and isinstance(x.target, ast.Name) and x.target.id in idx_names)
+             or (isinstance(x, ast.Assign) and len(x.targets) == 1 and isinstance(x.targets[0], ast.Name) and x.targets[0].id in idx_names
+                 and any(isinstance(y, ast.Name) and y.id in idx_names for y in ast.walk(x.value)))]
+    if idx_names and steps:
+        for st_ in steps:
+            cl = facts_at(ctx, tgt, st_, res)
+            s_ = describe_facts(cl)
+            ok = any(len(c) == 1 and 'null_operand' in str(next(iter(c))[1]) and next(iter(c))[-1] is False for c in cl)
+            ctx.check(ok, 'specific:written-position-advances-per-written-operand', tgt.site(st_),
+                      'the index into the written operands advances only for a listed operand that is not `empty`',
+                      f'`{unparse(st_)}` under {s_[:200]}: an `empty` operand listed before a written one makes the written one look missing, the combination never matches')
 
 
 def c13_3(ctx):
@@ -584,10 +599,15 @@ def c13_no_abort(ctx):
     if n < 8:
         ctx.err('match:no-abort', '-', 'at least 8 operand matchers', f'{n}')
     # expression-bearing forms that build their parts directly: ill-formed expression text is "no match"
+    ebase = ctx.repo.find_class('ExpressionByteCodePart')
+    efamily = {ebase.name} | {c_.name for c_ in ebase.all_subclasses()}
     for q in ('bespokeasm.assembler.model.operand.types.numeric_enumeration.NumericEnumerationOperand.parse_operand',
-              'bespokeasm.assembler.model.operand.types.numeric_expression.NumericExpressionOperand.parse_operand'):
+              'bespokeasm.assembler.model.operand.types.numeric_expression.NumericExpressionOperand.parse_operand',
+              'bespokeasm.assembler.model.operand.types.numeric_bytecode.NumericBytecode.parse_operand',
+              'bespokeasm.assembler.model.operand.types.relative_address.RelativeAddressOperand.parse_operand',
+              'bespokeasm.assembler.model.operand.types.indirect_register.IndirectRegisterOperand.parse_operand'):
         f = ctx.repo.func(q)
-        built = [x for x in ast.walk(f.node) if isinstance(x, ast.Call) and ('ByteCodePart' in unparse(x.func) or unparse(x.func) == 'self._parse_bytecode_parts')]
+        built = [x for x in ast.walk(f.node) if isinstance(x, ast.Call) and (unparse(x.func).split('.')[-1] in efamily or unparse(x.func) == 'self._parse_bytecode_parts')]
         covered = True
         for b in built:
             inside = False
@@ -613,6 +633,16 @@ _GI = 'assembler/bytecode/generator/instruction.py'
 _OPF = 'assembler/model/operand_parser.py'
 _OSF = 'assembler/model/operand_set.py'
 MUTANTS = [
+    V('c13-empty-operand-takes-a-written-position', 'assembler/model/operand_parser.py', """                    # only an operand that is written takes up one of the written operands
+                    operand_index += 1
+""", """                operand_index += 1
+""", 'C13.14'),
+    V('c13-ill-formed-expression-aborts', 'assembler/model/operand/types/numeric_bytecode.py', """        except SyntaxError:
+            # not a well-formed expression: it is not this operand (another variant or operand of the set may accept it)
+            return None
+""", """        except SyntaxError:
+            raise
+""", 'C13.13'),
     V('c13-indirect-offset-aborts', 'assembler/model/operand/types/indirect_register.py', "                    # an offset was written but this operand is not configured to have one: it is not this\n                    # operand (another variant or operand of the set may accept it)\n                    return None", "                    sys.exit(f'ERROR: {line_id} - An offset was provided for indirect register operand')", 'C13.13'),
     V('c13-register-set-lowercased', 'assembler/model/__init__.py', "        self._registers = set(registers if registers is not None else [])", "        self._registers = {str(r).lower() for r in (registers if registers is not None else [])}", 'C13.12'),
     V('c13-operand-id-stringified', 'assembler/model/operand/__init__.py', "        self._id = operand_id\n", "        self._id = str(operand_id)\n", 'C13.11'),
